@@ -277,6 +277,35 @@ def run(ctx):
                     viol.append((bname, impl.real_parse_ast(t), f"ok {sql[-160:]}", f"the filter's list has {len(items)} elements, the compiled IN list has {n}: an element is missing"))
                 else:
                     tally[f"{bname}:inlist:complete"] += 1
+    # literals whose VALUE is falsy in the host language (0, 0.0, '', false) in every argument / operand position: the translation must have the shape it has for
+    # a truthy literal of the same kind (same SQL skeleton, same number of bound parameters) - "never returns output with a part missing"
+    # (Boolean literals are left out: SQLAlchemy renders them as the inline constants 1 / 0 by design - Model/Orm.lean's inline-constant leaves)
+    FALSY = [("{v}", "0", "1"), ("{v}", "0", "7"), ("{f}", "0.0", "1.5"), ("{s}", "''", "'x'")]
+    FT = ["substring(s1, 1, {v}) eq ''", "substring(s1, {v}) eq 'a'", "substring(s1, {v}, 2) eq 'a'", "i1 add {v} eq 1", "i1 mul {v} eq 0", "i1 sub {v} gt {v}", "length(s1) eq {v}", "i1 in ({v}, 5)",
+          "i1 eq {v} or i2 eq {v}", "f1 add {f} lt 2.5", "round(f1) eq {f}", "f1 in ({f}, 2.5)", "contains(s1, {s})", "s1 eq {s}", "startswith(s1, {s}) or endswith(s2, {s})", "s1 in ({s}, 'k')",
+          "tolower(s1) eq tolower({s})", "b1 eq {b}", "{b} eq b1", "b1 in ({b},)", "(i1 gt {v}) eq {b}", "contains(s1, 'a') ne {b}", "length(s1) sub {v} eq 1", "year(d1) add {v} eq 2020"]
+    for tmpl in FT:
+        for hole, falsy, truthy in FALSY:
+            if hole not in tmpl:
+                continue
+            others = {"{v}": "1", "{f}": "1.5", "{s}": "'x'", "{b}": "true"}
+            tf, tt = tmpl.replace(hole, falsy), tmpl.replace(hole, truthy)
+            for h2, d2 in others.items():
+                tf, tt = tf.replace(h2, d2), tt.replace(h2, d2)
+            for bname, comp in (("django", lambda x: oc.dj_shorthand_sql(x)), ("sa-orm", lambda x: oc.sa_shorthand_sql(x, "orm")), ("sa-core", lambda x: oc.sa_shorthand_sql(x, "core"))):
+                (of, sf, pf), (ot, st, pt) = comp(tf), comp(tt)
+                ctx.evaluations += 1
+                if of != "ok" or ot != "ok":
+                    tally[f"{bname}:falsy:{'both-refused' if of != 'ok' and ot != 'ok' else 'ONE-REFUSED'}"] += 1
+                    if (of == "ok") != (ot == "ok") and not (of.startswith("lib ") or ot.startswith("lib ")):
+                        viol.append((bname, impl.real_parse_ast(tf), of + " / " + ot, f"the filter with the literal {falsy} and the one with {truthy} do not have the same outcome"))
+                    continue
+                npf, npt = (len(pf) if pf is not None else 0), (len(pt) if pt is not None else 0)
+                if sf != st or npf != npt:
+                    tally[f"{bname}:falsy:SHAPE-DIFFERS"] += 1
+                    viol.append((bname, impl.real_parse_ast(tf), f"ok {str(sf)[-140:]} params={npf}", f"with the literal {falsy} the translation has another shape than with {truthy} ({str(st)[-140:]} params={npt}): a part of the filter is missing or was decided early"))
+                else:
+                    tally[f"{bname}:falsy:same-shape"] += 1
     # literals the lexer accepts but that have no value (not a calendar date / time): a backend that binds VALUES has nothing to bind — it must refuse
     # with a library exception, not hand on a placeholder; the SQL dialects, which copy the text, must still copy all of it
     for lit, col in (("2020-02-30", "d1"), ("2021-02-29", "d1"), ("2020-04-31", "d1"), ("2020-02-30T10:00:00Z", "dt1"), ("2021-02-29T00:00:00Z", "dt1")):
